@@ -158,6 +158,9 @@ structure TreeInv (σ : Leaves) (reg : Nat → Option (List Row)) (sq0 : SqlStat
   freshSt : ∀ o, s.nextTemp ≤ o → s.st.payload o = none
   /-- no Materialization object occurs inside its own upstream tree -/
   acyc : x.Acyclic
+  /-- allocation ids are positive (0 marks a node a pure model function has just created) -/
+  pos : ∀ o, o ∈ x.matOids → 0 < o
+  tpos : 0 < s.nextTemp
 
 theorem matOids_below {n : Nat} : (t : Rel) → t.markersBelow n → ∀ o, o ∈ t.matOids → o < n
   | .leaf .., _, _, ho => by simp [Rel.matOids] at ho
@@ -217,18 +220,42 @@ theorem PayNewP.trans {t1 t2 t : Rel} {n m : Nat} {a b c : ExecState} (h1 : PayN
   · exact Or.inr (s2 o h)
   · exact Or.inr (Or.inr (Nat.le_trans hnm h))
 
+/-- The shape of a tree the Processor returns, as far as `Materialization.simplify` looks: no Select marker at the
+root or below unary operations, and a Transfer there leads to another engine. -/
+def Rel.ProcShape : Rel → Prop
+  | .unary _ t _ => Rel.ProcShape t
+  | .transfer _ d t => d ≠ t.engine
+  | .select .. => False
+  | _ => True
+
+/-- A Materialization the Processor hands back (at the root, or below unary operations that were re-applied as
+no-ops) holds a payload. -/
+def Rel.MatPay (s : ExecState) : Rel → Prop
+  | .unary _ t _ => Rel.MatPay s t
+  | .mat oid _ _ => (s.payload oid).isSome = true
+  | _ => True
+
+theorem MatPay.mono {s s' : ExecState} (hm : PayMono s s') : (x : Rel) → x.MatPay s → x.MatPay s'
+  | .unary _ t _, h => MatPay.mono hm t h
+  | .mat oid _ _, h => hm oid h
+  | .leaf .., _ => trivial
+  | .binary .., _ => trivial
+  | .transfer .., _ => trivial
+  | .select .., _ => trivial
+
 /-- Re-applying the operation of an existing node to the processed target (`operation.apply(new_target)` inside one
 iteration engine). -/
 theorem reapply_iter (σ : Leaves) (reg : Nat → Option (List Row)) (st : Store) (op : UOp) (t x : Rel) (c : Cols)
     (s : ProcState) (r : Res)
     (hnid : op.isIdentity = false) (har : op.arityOk = true) (hwf : (Rel.unary op t c).WF)
     (hkd : keyDetermined σ (Rel.unary op t c) = true)
-    (X : TreeInv σ reg sq0 x s) (hX : x.IterOKs s.st) (hsem : sem σ x = sem σ t)
+    (X : TreeInv σ reg sq0 x s) (hX : x.IterOKs s.st) (hsh : x.ProcShape) (hmp : x.MatPay s.st)
+    (hsem : sem σ x = sem σ t)
     (hcols : ∀ u, u ∈ x.columns ↔ u ∈ t.columns) (hk : x.engine.kind = .iter)
     (h : applyOp st defaultFuel (.u op) x {} = .ok r) :
     TreeInv σ reg sq0 (r.get x) s ∧ (r.get x).IterOKs s.st ∧ sem σ (r.get x) = sem σ (Rel.unary op t c) ∧
       (∀ u, u ∈ (r.get x).columns ↔ u ∈ c) ∧ (r.get x).engine = x.engine ∧
-      (∀ o, o ∈ (r.get x).matOids → o ∈ x.matOids) := by
+      (∀ o, o ∈ (r.get x).matOids → o ∈ x.matOids) ∧ (r.get x).ProcShape ∧ (r.get x).MatPay s.st := by
   obtain ⟨hwt, hc, hop⟩ := hwf
   rw [defaultFuel_eq, applyOp_iter st 99998 op x hk] at h
   cases hbeg : op.beginApply x none with
@@ -258,11 +285,17 @@ theorem reapply_iter (σ : Leaves) (reg : Nat → Option (List Row)) (st : Store
           rw [hc] at this
           simpa [UOp.appliedColumns] using this
         · exact finishApply_kd σ x o' r X.kd (by simpa using hdd) h
-      refine ⟨⟨f.wf, f.truthful, hkd', ?_, ?_, X.store, X.sq, ?_, X.fresh, X.freshSt, ?_⟩, ?_,
-        by rw [← hsemEq]; exact f.sem_eq, fun u => (f.cols u).trans (hcolsEq u), f.engine,
+      have hmo : ∀ o, o ∈ (r.get x).matOids → o ∈ x.matOids :=
         finishApply_pres (fun y => ∀ o, o ∈ y.matOids → o ∈ x.matOids) (fun _ => True) (fun _ => True)
           (fun up t c hp => ⟨hp, trivial⟩) (fun op t c hp _ _ => hp) (fun _ _ _ _ _ _ => trivial) x o' r
-          (fun _ h => h) trivial h⟩
+          (fun _ h => h) trivial h
+      refine ⟨⟨f.wf, f.truthful, hkd', ?_, ?_, X.store, X.sq, ?_, X.fresh, X.freshSt, ?_,
+          fun o ho => X.pos o (hmo o ho), X.tpos⟩, ?_,
+        by rw [← hsemEq]; exact f.sem_eq, fun u => (f.cols u).trans (hcolsEq u), f.engine, hmo,
+        finishApply_pres (fun y => y.ProcShape) (fun _ => True) (fun _ => True)
+          (fun up t c hp => ⟨hp, trivial⟩) (fun op t c hp _ _ => hp) (fun _ _ _ _ _ _ => trivial) x o' r hsh trivial h,
+        finishApply_pres (fun y => y.MatPay s.st) (fun _ => True) (fun _ => True)
+          (fun up t c hp => ⟨hp, trivial⟩) (fun op t c hp _ _ => hp) (fun _ _ _ _ _ _ => trivial) x o' r hmp trivial h⟩
       · exact finishApply_pres (fun y => y.RegOK σ reg) (fun _ => True) (fun _ => True)
           (fun up t c hp => ⟨hp, trivial⟩) (fun op t c hp _ _ => hp) (fun _ _ _ _ _ _ => trivial) x o' r X.regOK trivial h
       · exact finishApply_pres (fun y => y.markersBelow s.nextTemp) (fun _ => True) (fun _ => True)
@@ -279,14 +312,15 @@ theorem reapply_iter (σ : Leaves) (reg : Nat → Option (List Row)) (st : Store
       rw [finishApply_identity] at h
       injection h with h; subst h
       have f := noop_sound σ op x X.wf X.truthful hnoop
-      exact ⟨X, hX, by rw [← hsemEq]; exact f.sem_eq, fun u => (f.cols u).trans (hcolsEq u), rfl, fun _ h => h⟩
+      exact ⟨X, hX, by rw [← hsemEq]; exact f.sem_eq, fun u => (f.cols u).trans (hcolsEq u), rfl, fun _ h => h, hsh, hmp⟩
 
 theorem rechain_iter (σ : Leaves) (reg : Nat → Option (List Row)) (st : Store) (l r : Rel) (s : ProcState) (b : BRes)
     (L : TreeInv σ reg sq0 l s) (R : TreeInv σ reg sq0 r s) (hL : l.IterOKs s.st) (hR : r.IterOKs s.st)
     (hk : l.engine.kind = .iter) (h : binaryApply st defaultFuel .chain l r = .ok b) :
     TreeInv σ reg sq0 (b.get l r) s ∧ (b.get l r).IterOKs s.st ∧ sem σ (b.get l r) = sem σ l ++ sem σ r ∧
       (∀ u, u ∈ (b.get l r).columns ↔ u ∈ l.columns) ∧ (b.get l r).engine = l.engine ∧
-      (∀ o, o ∈ (b.get l r).matOids → o ∈ l.matOids ∨ o ∈ r.matOids) := by
+      (∀ o, o ∈ (b.get l r).matOids → o ∈ l.matOids ∨ o ∈ r.matOids) ∧ (b.get l r).ProcShape ∧
+      (b.get l r).MatPay s.st := by
   have hfuel : defaultFuel = 99999 + 1 := rfl
   rw [hfuel, binaryApply] at h
   simp only [chainBeginApply] at h
@@ -299,8 +333,11 @@ theorem rechain_iter (σ : Leaves) (reg : Nat → Option (List Row)) (st : Store
       subst h
       have hceq := (Cols.seteq_iff _ _).mp hc
       refine ⟨⟨⟨L.wf, R.wf, rfl, hceq⟩, ⟨L.truthful, R.truthful⟩, ?_,
-        ⟨L.regOK, R.regOK⟩, ⟨L.below, R.below⟩, L.store, L.sq, ⟨L.free, R.free⟩, L.fresh, L.freshSt, ⟨L.acyc, R.acyc⟩⟩,
-        ⟨hL, hR, heq, trivial⟩, ?_, ?_, ?_, ?_⟩
+        ⟨L.regOK, R.regOK⟩, ⟨L.below, R.below⟩, L.store, L.sq, ⟨L.free, R.free⟩, L.fresh, L.freshSt, ⟨L.acyc, R.acyc⟩,
+          (fun o ho => by
+            simp only [BRes.get, Rel.matOids, List.mem_append] at ho
+            exact ho.elim (L.pos o) (R.pos o)), L.tpos⟩,
+        ⟨hL, hR, heq, trivial⟩, ?_, ?_, ?_, ?_, trivial, trivial⟩
       · simp [BRes.get, keyDetermined, L.kd, R.kd]
       · simp [sem, BRes.get]
       · intro u; simp [BRes.get, Rel.columns]
@@ -330,9 +367,10 @@ structure ProcMultiOK (σ : Leaves) (reg : Nat → Option (List Row)) (sq0 : Sql
   /-- the `was_materialized` flag is raised only when the returned relation holds a payload (looked up through
   payload-less markers) -/
   flag : b = true → (payloadThrough s' (res.get t)).isSome = true
-  /-- a Transfer that had to be processed comes back as a new Transfer to the same destination -/
-  xfer : ∀ o d t0, t = .transfer o d t0 → (matAs.isSome = true → b = true) ∧
-    ∀ x, res = .new x → ∃ f t', x = .transfer f d t' ∧ t'.engine = t0.engine
+  /-- the returned tree has the shape `Materialization.simplify` relies on -/
+  shape : (res.get t).ProcShape
+  /-- a Materialization handed back holds a payload -/
+  matpay : (res.get t).MatPay s'.st
   /-- payloads were added only to Materializations of the input tree and to nodes the Processor created -/
   newp : PayNewP t s.nextTemp s.st s'.st
   /-- the Materializations of the returned tree are the input's or new ones -/
@@ -340,174 +378,12 @@ structure ProcMultiOK (σ : Leaves) (reg : Nat → Option (List Row)) (sq0 : Sql
   /-- write-once: every payload that was there is still there, the same object -/
   keep : PayKeep s.st s'.st
 
-theorem payloadThrough_temp (s : ProcState) (n : Nat) : (t : Rel) →
-    payloadThrough { s with nextTemp := n } t = payloadThrough s t
-  | .leaf .. => rfl
-  | .unary .. => rfl
-  | .binary .. => rfl
-  | .mat oid nm t => by
-    unfold payloadThrough
-    rw [payloadThrough_temp s n t]; rfl
-  | .transfer oid d t => by
-    unfold payloadThrough
-    rw [payloadThrough_temp s n t]; rfl
-  | .select a b c d e f g i t => by
-    unfold payloadThrough
-    rw [payloadThrough_temp s n t]; rfl
-
-theorem payloadOf_marker_isSome (s : ProcState) (x : Rel) (hx : x.procFlag = true) (hl : ∀ a b c d e f g i, x ≠ .leaf a b c d e f g i) :
-    (s.payloadOf x).isSome = ((s.st.payload x.oid).isSome || (s.sq.payload x.oid).isSome) := by
-  cases x with
-  | leaf a b c d e f g i => exact absurd rfl (hl a b c d e f g i)
-  | unary => simp [Rel.procFlag] at hx
-  | binary => simp [Rel.procFlag] at hx
-  | mat oid n t => simp only [ProcState.payloadOf, Rel.oid]; cases s.st.payload oid <;> simp
-  | transfer oid d t => simp only [ProcState.payloadOf, Rel.oid]; cases s.st.payload oid <;> simp
-  | select oid a1 a2 a3 a4 a5 a6 a7 t => simp only [ProcState.payloadOf, Rel.oid]; cases s.st.payload oid <;> simp
-
-theorem payloadOf_mono {s s' : ProcState} (hsq : s'.sq = s.sq) (hm : PayMono s.st s'.st) (x : Rel)
-    (h : (s.payloadOf x).isSome = true) : (s'.payloadOf x).isSome = true := by
-  have key : ∀ y : Rel, y.procFlag = true → (∀ a b c d e f g i, y ≠ .leaf a b c d e f g i) →
-      (s.payloadOf y).isSome = true → (s'.payloadOf y).isSome = true := by
-    intro y hy hl hh
-    rw [payloadOf_marker_isSome s y hy hl] at hh
-    rw [payloadOf_marker_isSome s' y hy hl, hsq]
-    simp only [Bool.or_eq_true] at hh ⊢
-    exact hh.imp (hm _) id
-  cases x with
-  | leaf oid le cols nm mn mx pl ms =>
-    simp only [ProcState.payloadOf] at h ⊢
-    rw [hsq]; exact h
-  | unary => simp [ProcState.payloadOf] at h
-  | binary => simp [ProcState.payloadOf] at h
-  | mat oid n t => exact key _ rfl (fun _ _ _ _ _ _ _ _ hh => by cases hh) h
-  | transfer oid d t => exact key _ rfl (fun _ _ _ _ _ _ _ _ hh => by cases hh) h
-  | select oid a1 a2 a3 a4 a5 a6 a7 t => exact key _ rfl (fun _ _ _ _ _ _ _ _ hh => by cases hh) h
-
-theorem payloadThrough_mono {s s' : ProcState} (hsq : s'.sq = s.sq) (hm : PayMono s.st s'.st) :
-    (x : Rel) → (payloadThrough s x).isSome = true → (payloadThrough s' x).isSome = true
-  | .leaf a b c d e f g i, h => by
-    simp only [payloadThrough] at h ⊢
-    exact payloadOf_mono hsq hm _ h
-  | .unary .., h => by simp [payloadThrough, ProcState.payloadOf] at h
-  | .binary .., h => by simp [payloadThrough, ProcState.payloadOf] at h
-  | .mat oid n t, h => by
-    unfold payloadThrough at h ⊢
-    cases hp' : s'.payloadOf (Rel.mat oid n t) with
-    | some q => rfl
-    | none =>
-      cases hp : s.payloadOf (Rel.mat oid n t) with
-      | some q =>
-        have := payloadOf_mono hsq hm (Rel.mat oid n t) (by simp [hp])
-        simp [hp'] at this
-      | none =>
-        simp only [hp] at h
-        exact payloadThrough_mono hsq hm t h
-  | .transfer oid d t, h => by
-    unfold payloadThrough at h ⊢
-    cases hp' : s'.payloadOf (Rel.transfer oid d t) with
-    | some q => rfl
-    | none =>
-      cases hp : s.payloadOf (Rel.transfer oid d t) with
-      | some q =>
-        have := payloadOf_mono hsq hm (Rel.transfer oid d t) (by simp [hp])
-        simp [hp'] at this
-      | none =>
-        simp only [hp] at h
-        exact payloadThrough_mono hsq hm t h
-  | .select oid a1 a2 a3 a4 a5 a6 a7 t, h => by
-    unfold payloadThrough at h ⊢
-    cases hp' : s'.payloadOf (Rel.select oid a1 a2 a3 a4 a5 a6 a7 t) with
-    | some q => rfl
-    | none =>
-      cases hp : s.payloadOf (Rel.select oid a1 a2 a3 a4 a5 a6 a7 t) with
-      | some q =>
-        have := payloadOf_mono hsq hm (Rel.select oid a1 a2 a3 a4 a5 a6 a7 t) (by simp [hp])
-        simp [hp'] at this
-      | none =>
-        simp only [hp] at h
-        exact payloadThrough_mono hsq hm t h
-
-/-- A payload found by looking through payload-less markers of an executable tree stands for the tree's rows. -/
-theorem payloadThrough_rows (σ : Leaves) (reg : Nat → Option (List Row)) (s : ProcState) (hs : StoreOK σ reg s.st) :
-    (x : Rel) → x.sqFree s.sq → x.RegOK σ reg → x.IterOKs s.st → (p : AnyPayload) → payloadThrough s x = some p →
-    ∃ it, p = .iter it ∧ ItOK it ∧ it.rows σ = .ok (sem σ x)
-  | .leaf oid le cols nm mn mx pl ms, hq, _, _, p, h => by
-    simp only [payloadThrough] at h
-    rw [payloadOf_free s (Rel.leaf oid le cols nm mn mx pl ms) hq] at h
-    cases pl with
-    | false => simp at h
-    | true =>
-      simp only [Bool.not_true, Bool.false_eq_true, if_false, Option.some.injEq] at h
-      exact ⟨.leafRef oid, h.symm, trivial, rfl⟩
-  | .unary .., _, _, _, p, h => by simp [payloadThrough, ProcState.payloadOf] at h
-  | .binary .., _, _, _, p, h => by simp [payloadThrough, ProcState.payloadOf] at h
-  | .mat oid n t, hq, hreg, hio, p, h => by
-    unfold payloadThrough at h
-    rw [payloadOf_free s (Rel.mat oid n t) hq.1] at h
-    simp only [Rel.oid] at h
-    cases hp : s.st.payload oid with
-    | some it =>
-      simp only [hp, Option.map_some, Option.some.injEq] at h
-      obtain ⟨hi, rows, hr, hrows⟩ := hs oid it hp
-      rw [hreg.1] at hr
-      injection hr with hr
-      exact ⟨it, h.symm, hi, by rw [hrows, ← hr]; rfl⟩
-    | none =>
-      simp only [hp, Option.map_none] at h
-      have hio' : t.IterOKs s.st := by
-        rcases hio with hh | hh
-        · rw [hp] at hh; cases hh
-        · exact hh
-      obtain ⟨it, a, b, c⟩ := payloadThrough_rows σ reg s hs t hq.2 hreg.2 hio' p h
-      exact ⟨it, a, b, by simpa [sem] using c⟩
-  | .transfer oid d t, hq, hreg, hio, p, h => by
-    unfold payloadThrough at h
-    rw [payloadOf_free s (Rel.transfer oid d t) hq.1] at h
-    simp only [Rel.oid] at h
-    cases hp : s.st.payload oid with
-    | some it =>
-      simp only [hp, Option.map_some, Option.some.injEq] at h
-      obtain ⟨hi, rows, hr, hrows⟩ := hs oid it hp
-      rw [hreg.1] at hr
-      injection hr with hr
-      exact ⟨it, h.symm, hi, by rw [hrows, ← hr]; rfl⟩
-    | none =>
-      simp only [hp, Option.map_none] at h
-      have hio' : t.IterOKs s.st ∧ t.engine.kind = .iter := by
-        rcases hio with hh | hh
-        · rw [hp] at hh; cases hh
-        · exact hh
-      obtain ⟨it, a, b, c⟩ := payloadThrough_rows σ reg s hs t (hq.2 hio'.2) hreg.2 hio'.1 p h
-      exact ⟨it, a, b, by simpa [sem] using c⟩
-  | .select oid a1 a2 a3 a4 a5 a6 a7 t, hq, hreg, hio, p, h => by
-    unfold payloadThrough at h
-    rw [payloadOf_free s (Rel.select oid a1 a2 a3 a4 a5 a6 a7 t) hq.1] at h
-    simp only [Rel.oid] at h
-    cases hp : s.st.payload oid with
-    | some it =>
-      simp only [hp, Option.map_some, Option.some.injEq] at h
-      obtain ⟨hi, rows, hr, hrows⟩ := hs oid it hp
-      rw [hreg.1] at hr
-      injection hr with hr
-      exact ⟨it, h.symm, hi, by rw [hrows, ← hr]; rfl⟩
-    | none =>
-      simp only [hp, Option.map_none] at h
-      obtain ⟨it, a, b, c⟩ := payloadThrough_rows σ reg s hs t hq.2 hreg.2 hio p h
-      exact ⟨it, a, b, by simpa [sem] using c⟩
-
-theorem payloadThrough_isSome (s : ProcState) (t : Rel) (h : (s.payloadOf t).isSome = true) :
-    (payloadThrough s t).isSome = true := by
-  cases hp : s.payloadOf t with
-  | none => simp [hp] at h
-  | some p => rw [payloadThrough_some s p t hp]; rfl
-
 theorem TreeInv.same {σ : Leaves} {reg reg' : Nat → Option (List Row)} {t : Rel} {s s' : ProcState}
     (T : TreeInv σ reg sq0 t s) (he : RegExt reg reg' s.nextTemp) (hn : s.nextTemp ≤ s'.nextTemp)
     (hs : StoreOK σ reg' s'.st) (hq : s'.sq = sq0) (hfs : ∀ o, s'.nextTemp ≤ o → s'.st.payload o = none) :
     TreeInv σ reg' sq0 t s' :=
   ⟨T.wf, T.truthful, T.kd, RegOK_ext σ he t T.regOK T.below, markersBelow_mono hn t T.below, hs, hq, T.free,
-    fun o ho => T.fresh o (Nat.le_trans hn ho), hfs, T.acyc⟩
+    fun o ho => T.fresh o (Nat.le_trans hn ho), hfs, T.acyc, T.pos, Nat.lt_of_lt_of_le T.tpos hn⟩
 
 
 theorem process_multi_iter (σ : Leaves) (h0 : sq0.payload 0 = none) :
@@ -530,11 +406,11 @@ theorem process_multi_iter (σ : Leaves) (h0 : sq0.payload 0 = none) :
       injection h1 with h1 hb
       subst h1; subst h2; subst hb
       exact ⟨reg, RegExt.refl _ _, T, hpl, PayMono.refl _, rfl, fun _ => Iff.rfl, rfl, Nat.le_refl _,
-        fun _ => payloadThrough_isSome s _ hc, (fun _ _ _ hh => by cases hh), PayNewP.refl _ _ _, (fun _ h => Or.inl h), PayKeep.refl _⟩
+        fun _ => payloadThrough_isSome s _ hc, trivial, trivial, PayNewP.refl _ _ _, (fun _ h => Or.inl h), PayKeep.refl _⟩
   | .select .., _, _, _, _, hm, _, _, _, _, _, _, _ => by cases hm
   | .mat oid name target, fuel, matAs, s, reg, hm, hsql, T, hf, res, b, s', h => by
     obtain ⟨hek, hcase⟩ := hm
-    rcases hcase with ⟨hp, hio⟩ | ⟨hmt, hxo⟩
+    rcases hcase with ⟨hp, hio⟩ | hmt
     · obtain ⟨s'', h', P⟩ := process_plain_iter σ reg target.engine hek (Rel.mat oid name target) fuel matAs s
         hp hio T.wf T.truthful T.kd T.regOK T.store (by rw [T.sq]; exact T.free) T.acyc hf
       rw [h'] at h
@@ -544,209 +420,328 @@ theorem process_multi_iter (σ : Leaves) (h0 : sq0.payload 0 = none) :
       exact ⟨reg, RegExt.refl _ _, T.same (RegExt.refl _ _) (Nat.le_of_eq P.temp.symm) P.store (P.sq.trans T.sq)
           (freshSt_of_new T.below (Nat.le_of_eq P.temp.symm) T.freshSt P.new),
         IterOKs.of_iterOK _ (Rel.mat oid name target) hio, P.mono, rfl, fun _ => Iff.rfl, rfl,
-        Nat.le_of_eq P.temp.symm, fun _ => payloadThrough_isSome _ _ (P.cached rfl), (fun _ _ _ hh => by cases hh),
+        Nat.le_of_eq P.temp.symm, fun _ => payloadThrough_isSome _ _ (P.cached rfl), trivial,
+        (by
+          have hc' := P.cached rfl
+          rw [payloadOf_free s'' (Rel.mat oid name target) (by rw [P.sq, T.sq]; exact T.free.1)] at hc'
+          show (s''.st.payload oid).isSome = true
+          cases hp' : s''.st.payload oid with
+          | none => simp [Rel.oid, hp'] at hc'
+          | some _ => rfl),
         PayNewP.of_new _ P.new, (fun _ h => Or.inl h), P.keep⟩
-    · -- a materialization directly after a transfer
+    · -- a materialization of a multi-engine subtree
       cases fuel with
       | zero => simp [Rel.size] at hf
       | succ n =>
-        cases target with
-        | leaf => cases hxo
-        | unary => cases hxo
-        | binary => cases hxo
-        | mat => cases hxo
-        | select => cases hxo
-        | transfer o1 d t0 =>
-          have hxo' : d ≠ t0.engine := hxo
-          have hoid : oid < s.nextTemp := T.below.1
-          unfold processRec at h
-          cases hc : (s.payloadOf (Rel.mat oid name (Rel.transfer o1 d t0))).isSome with
-          | true =>
-            simp [bind, ExceptT.bind, ExceptT.mk, ExceptT.bindCont, StateT.bind, get, getThe, MonadStateOf.get,
-              StateT.get, liftM, monadLift, MonadLift.monadLift, ExceptT.lift, ExceptT.run, StateT.run, hc, pure,
-              ExceptT.pure, StateT.pure, Functor.map, StateT.map] at h
-            obtain ⟨h1, h2⟩ := run_ok_inj h
-            injection h1 with h1 hb
-            subst h1; subst h2; subst hb
-            have hpay : (s.st.payload oid).isSome = true := by
-              rw [payloadOf_free s (Rel.mat oid name (Rel.transfer o1 d t0)) (by rw [T.sq]; exact T.free.1)] at hc
-              cases hp : s.st.payload oid with
-              | none => simp [Rel.oid, hp] at hc
-              | some _ => rfl
-            exact ⟨reg, RegExt.refl _ _, T, Or.inl hpay, PayMono.refl _, rfl, fun _ => Iff.rfl, rfl, Nat.le_refl _,
-              fun _ => payloadThrough_isSome _ _ hc, (fun _ _ _ hh => by cases hh), PayNewP.refl _ _ _, (fun _ h => Or.inl h),
-              PayKeep.refl _⟩
-          | false =>
-            have Tt : TreeInv σ reg sq0 (Rel.transfer o1 d t0) s :=
-              ⟨T.wf, T.truthful, T.kd, T.regOK.2, T.below.2, T.store, T.sq, T.free.2, T.fresh, T.freshSt, T.acyc.2⟩
-            cases hr0 : (processRec σ n (Rel.transfer o1 d t0) (some name)).run.run s with
-            | mk r1 s1 =>
-              have hr := hr0
-              simp only [ExceptT.run, StateT.run] at hr
-              cases r1 with
-              | error e =>
-                simp [bind, ExceptT.bind, ExceptT.mk, ExceptT.bindCont, StateT.bind, get, getThe, MonadStateOf.get,
-                  StateT.get, liftM, monadLift, MonadLift.monadLift, ExceptT.lift, ExceptT.run, StateT.run, pure,
-                  ExceptT.pure, StateT.pure, Functor.map, StateT.map, hc, hr] at h
-                injection h with h1 _; cases h1
-              | ok v =>
-                obtain ⟨nt, fl⟩ := v
-                obtain ⟨reg1, hext, P⟩ := process_multi_iter σ h0 (Rel.transfer o1 d t0) n (some name) s reg hmt hsql Tt
-                  (by simp [Rel.size] at hf ⊢; omega) nt fl s1 hr0
-                obtain ⟨hfl, hshape⟩ := P.xfer o1 d t0 rfl
-                have hfl : fl = true := hfl rfl
-                subst hfl
-                have hregoid : reg1 oid = some (sem σ (Rel.transfer o1 d t0)) := by
-                  rw [hext oid hoid]; exact T.regOK.1
-                have hoid1 : oid < s1.nextTemp := Nat.lt_of_lt_of_le hoid P.temp
-                have hnone1 : s1.st.payload oid = none := by
-                  cases hp1 : s1.st.payload oid with
+        have hoid : oid < s.nextTemp := T.below.1
+        unfold processRec at h
+        cases hc : (s.payloadOf (Rel.mat oid name target)).isSome with
+        | true =>
+          simp [bind, ExceptT.bind, ExceptT.mk, ExceptT.bindCont, StateT.bind, get, getThe, MonadStateOf.get,
+            StateT.get, liftM, monadLift, MonadLift.monadLift, ExceptT.lift, ExceptT.run, StateT.run, hc, pure,
+            ExceptT.pure, StateT.pure, Functor.map, StateT.map] at h
+          obtain ⟨h1, h2⟩ := run_ok_inj h
+          injection h1 with h1 hb
+          subst h1; subst h2; subst hb
+          have hpay : (s.st.payload oid).isSome = true := by
+            rw [payloadOf_free s (Rel.mat oid name target) (by rw [T.sq]; exact T.free.1)] at hc
+            cases hp : s.st.payload oid with
+            | none => simp [Rel.oid, hp] at hc
+            | some _ => rfl
+          exact ⟨reg, RegExt.refl _ _, T, Or.inl hpay, PayMono.refl _, rfl, fun _ => Iff.rfl, rfl, Nat.le_refl _,
+            fun _ => payloadThrough_isSome _ _ hc, trivial, hpay, PayNewP.refl _ _ _, (fun _ h => Or.inl h),
+            PayKeep.refl _⟩
+        | false =>
+          have hs0 : s.st.payload oid = none := by
+            rw [payloadOf_free s (Rel.mat oid name target) (by rw [T.sq]; exact T.free.1)] at hc
+            cases hp0 : s.st.payload oid with
+            | none => rfl
+            | some q => simp [Rel.oid, hp0] at hc
+          have Tt : TreeInv σ reg sq0 target s :=
+            ⟨T.wf, T.truthful, T.kd, T.regOK.2, T.below.2, T.store, T.sq, T.free.2, T.fresh, T.freshSt, T.acyc.2,
+              fun o ho => T.pos o (List.mem_cons_of_mem _ ho), T.tpos⟩
+          cases hr0 : (processRec σ n target (some name)).run.run s with
+          | mk r1 s1 =>
+            have hr := hr0
+            simp only [ExceptT.run, StateT.run] at hr
+            cases r1 with
+            | error e =>
+              simp [bind, ExceptT.bind, ExceptT.mk, ExceptT.bindCont, StateT.bind, get, getThe, MonadStateOf.get,
+                StateT.get, liftM, monadLift, MonadLift.monadLift, ExceptT.lift, ExceptT.run, StateT.run, pure,
+                ExceptT.pure, StateT.pure, Functor.map, StateT.map, hc, hr] at h
+              injection h with h1 _; cases h1
+            | ok v =>
+              obtain ⟨nt, fl⟩ := v
+              obtain ⟨reg1, hext, P⟩ := process_multi_iter σ h0 target n (some name) s reg hmt hsql Tt
+                (by simp [Rel.size] at hf ⊢; omega) nt fl s1 hr0
+              have hregoid : reg1 oid = some (sem σ target) := by
+                rw [hext oid hoid]; exact T.regOK.1
+              have hoid1 : oid < s1.nextTemp := Nat.lt_of_lt_of_le hoid P.temp
+              have hnotin : oid ∉ (nt.get target).matOids := by
+                intro hmem
+                rcases P.mats oid hmem with hh | hh
+                · exact T.acyc.1 hh
+                · omega
+              have hnone1 : s1.st.payload oid = none := by
+                cases hp1 : s1.st.payload oid with
+                | none => rfl
+                | some p =>
+                  rcases P.newp oid (by simp [hp1]) with hh | hh | hh
+                  · rw [hs0] at hh; cases hh
+                  · exact absurd hh T.acyc.1
+                  · omega
+              have hkx : (nt.get target).engine.kind = .iter := by rw [P.engine]; exact hek
+              have hfreeX : (nt.get target).sqFree s1.sq := by rw [P.inv.sq]; exact P.inv.free
+              cases nt with
+              | same =>
+                obtain ⟨it, s2, hmp, hi, hrows, h2, hsq, hnt, hm2, hn2, hk2⟩ := matPayload_spec σ reg1 oid name target
+                  target fl s1 hek hek P.exec P.inv.wf P.inv.truthful P.inv.kd P.inv.regOK P.inv.store P.inv.acyc
+                  hfreeX rfl T.wf T.truthful P.flag
+                simp [bind, ExceptT.bind, ExceptT.mk, ExceptT.bindCont, StateT.bind, get, getThe,
+                  MonadStateOf.get, StateT.get, modify, modifyGet, MonadStateOf.modifyGet, StateT.modifyGet,
+                  MonadState.modifyGet, liftM, monadLift, MonadLift.monadLift, ExceptT.lift, ExceptT.run,
+                  StateT.run, pure, ExceptT.pure, StateT.pure, Functor.map, StateT.map, hc, hr, Res.get,
+                  hmp] at h
+                obtain ⟨h1, h2'⟩ := run_ok_inj h
+                injection h1 with h1 hb
+                subst h1; subst h2'; subst hb
+                have hfs2 : ∀ o, s2.nextTemp ≤ o → s2.st.payload o = none :=
+                  freshSt_of_new P.inv.below (Nat.le_of_eq hnt.symm) P.inv.freshSt hn2
+                have hnone2 : s2.st.payload oid = none := by
+                  cases hp2 : s2.st.payload oid with
                   | none => rfl
                   | some p =>
-                    rcases P.newp oid (by simp [hp1]) with hh | hh | hh
-                    · rw [payloadOf_free s (Rel.mat oid name (Rel.transfer o1 d t0)) (by rw [T.sq]; exact T.free.1)] at hc
-                      cases hp0 : s.st.payload oid with
-                      | none => rw [hp0] at hh; cases hh
-                      | some q => simp [Rel.oid, hp0] at hc
-                    · exact absurd hh T.acyc.1
-                    · omega
-                cases nt with
-                | same =>
-                  -- the Transfer already held a payload: it is handed on
-                  have hsome := P.flag rfl
-                  simp only [Res.get] at hsome
-                  cases hpt : payloadThrough s1 (Rel.transfer o1 d t0) with
-                  | none => simp [hpt] at hsome
+                    rcases hn2 oid (by simp [hp2]) with hh | hh
+                    · rw [hnone1] at hh; cases hh
+                    · exact absurd hh hnotin
+                have htemp : s.nextTemp ≤ s2.nextTemp := by rw [hnt]; exact P.temp
+                have hst : StoreOK σ reg1 (s2.attach oid (.iter it)).st :=
+                  StoreOK.cons h2 oid it _ hi hregoid hrows
+                refine ⟨reg1, hext, T.same hext htemp hst (hsq.trans P.inv.sq) ?_, Or.inl ?_, ?_, rfl,
+                  fun _ => Iff.rfl, rfl, htemp, fun _ => payloadThrough_isSome _ _ ?_, trivial,
+                  (by simp [Rel.MatPay, Res.get, ProcState.attach, ExecState.payload]), ?_,
+                  (fun _ h => Or.inl h), ?_⟩
+                · intro o ho
+                  have hne : (oid == o) = false := by
+                    have : s2.nextTemp ≤ o := ho
+                    have := hnt
+                    simp; omega
+                  have := hfs2 o ho
+                  simpa [ProcState.attach, ExecState.payload, List.find?_cons, hne] using this
+                · simp [ProcState.attach, ExecState.payload]
+                · exact (P.mono.trans hm2).trans (PayMono.cons s2.st oid it s2.st.evals)
+                · simp [ProcState.attach, ProcState.payloadOf, Rel.oid, ExecState.payload, Res.get]
+                · have hlift : PayNewP (Rel.mat oid name target) s.nextTemp s.st s1.st :=
+                    fun o ho => (P.newp o ho).imp id (Or.imp (fun h => List.mem_cons_of_mem _ h) id)
+                  have hstep : PayNewP (Rel.mat oid name target) s.nextTemp s.st s2.st :=
+                    PayNewP.trans hlift (PayNewP.of_new s1.nextTemp hn2) P.temp (fun _ h => Or.inl h)
+                      (fun o h => Or.inl (show o ∈ (Rel.mat oid name target).matOids from List.mem_cons_of_mem oid h))
+                  exact PayNewP.cons hstep oid it s2.st.evals (Or.inl (by simp [Rel.matOids]))
+                · exact (P.keep.trans hk2).trans (PayKeep.cons s2.st oid it s2.st.evals hnone2)
+              | new x =>
+                have hmatdef : materialize s1.store defaultFuel x name =
+                    .ok (if matSimplify x then Res.same else .new (.mat 0 name x)) := by
+                  rw [defaultFuel_eq, materialize]
+                  have : x.engine.kind = .iter := hkx
+                  simp only [this]
+                  split <;> rfl
+                have hpos1 : s1.nextTemp ≠ 0 := by omega
+                cases hk : s1.nextTemp with
+                | zero => exact absurd hk hpos1
+                | succ k =>
+                have hle : s.nextTemp ≤ k + 1 := by have := P.temp; omega
+                have hbelowX : x.markersBelow (k + 1) := by rw [← hk]; exact P.inv.below
+                have hsemx : sem σ x = sem σ target := P.sem_eq
+                -- the payload computation, in the state after the fresh id was drawn
+                obtain ⟨it, s2, hmp, hi, hrows, h2, hsq, hnt, hm2, hn2, hk2⟩ := matPayload_spec σ reg1 oid name target
+                  x fl ⟨s1.st, s1.sq, s1.hooks, k + 1 + 1, s1.det⟩ hkx hek P.exec P.inv.wf P.inv.truthful P.inv.kd
+                  P.inv.regOK P.inv.store P.inv.acyc hfreeX hsemx T.wf T.truthful
+                  (fun hh => by
+                    have := payloadThrough_temp s1 (k + 1 + 1) x
+                    rw [show payloadThrough ⟨s1.st, s1.sq, s1.hooks, k + 1 + 1, s1.det⟩ x = payloadThrough s1 x from this]
+                    exact P.flag hh)
+                have hsq' : s2.sq = s1.sq := hsq
+                have hnt' : s2.nextTemp = k + 1 + 1 := hnt
+                have hfs2 : ∀ o, k + 1 + 1 ≤ o → s2.st.payload o = none :=
+                  freshSt_of_new hbelowX (by omega) (by rw [← hk]; exact P.inv.freshSt) hn2
+                have hnone2 : s2.st.payload oid = none := by
+                  cases hp2 : s2.st.payload oid with
+                  | none => rfl
                   | some p =>
-                    obtain ⟨it, hpit, hi, hrows⟩ := payloadThrough_rows σ reg1 s1 P.inv.store _
-                      (by rw [P.inv.sq]; exact P.inv.free) P.inv.regOK P.exec p hpt
-                    subst hpit
-                    simp [bind, ExceptT.bind, ExceptT.mk, ExceptT.bindCont, StateT.bind, get, getThe,
-                      MonadStateOf.get, StateT.get, modify, modifyGet, MonadStateOf.modifyGet, StateT.modifyGet,
-                      MonadState.modifyGet, liftM, monadLift, MonadLift.monadLift, ExceptT.lift, ExceptT.run,
-                      StateT.run, pure, ExceptT.pure, StateT.pure, Functor.map, StateT.map, hc, hr, Res.get,
-                      hpt] at h
-                    obtain ⟨h1, h2⟩ := run_ok_inj h
-                    injection h1 with h1 hb
-                    subst h1; subst h2; subst hb
-                    have hst : StoreOK σ reg1 (s1.attach oid (.iter it)).st :=
-                      StoreOK.cons P.inv.store oid it _ hi hregoid hrows
-                    refine ⟨reg1, hext, T.same hext P.temp hst P.inv.sq ?_, Or.inl ?_, ?_, rfl, fun _ => Iff.rfl,
-                      rfl, P.temp, fun _ => payloadThrough_isSome _ _ ?_, (fun _ _ _ hh => by cases hh), ?_,
-                      (fun _ h => Or.inl h), P.keep.trans (PayKeep.cons s1.st oid it s1.st.evals hnone1)⟩
+                    rcases hn2 oid (by simp [hp2]) with hh | hh
+                    · rw [show (⟨s1.st, s1.sq, s1.hooks, k + 1 + 1, s1.det⟩ : ProcState).st = s1.st from rfl, hnone1] at hh
+                      cases hh
+                    · exact absurd hh hnotin
+                have hlift : PayNewP (Rel.mat oid name target) s.nextTemp s.st s1.st :=
+                  fun o ho => (P.newp o ho).imp id (Or.imp (fun h => List.mem_cons_of_mem _ h) id)
+                have hstep : PayNewP (Rel.mat oid name target) s.nextTemp s.st s2.st :=
+                  PayNewP.trans hlift (PayNewP.of_new s1.nextTemp hn2) P.temp (fun _ h => Or.inl h)
+                    (fun o h => (P.mats o h).imp (fun hh => List.mem_cons_of_mem oid hh) id)
+                have hkeep2 : PayKeep s.st s2.st := P.keep.trans hk2
+                have hmono2 : PayMono s.st s2.st := P.mono.trans hm2
+                simp [bind, ExceptT.bind, ExceptT.mk, ExceptT.bindCont, StateT.bind, get, getThe,
+                  MonadStateOf.get, StateT.get, set, StateT.set, modify, modifyGet, MonadStateOf.modifyGet,
+                  StateT.modifyGet, MonadState.modifyGet, liftM, monadLift, MonadLift.monadLift, ExceptT.lift,
+                  ExceptT.run, StateT.run, pure, ExceptT.pure, StateT.pure, Functor.map, StateT.map, hc, hr,
+                  Res.get, hmatdef, freshTemp, hk] at h
+                -- the case where a new Materialization node is created
+                have hN1 : matSimplify x = false →
+                    ∃ reg', RegExt reg reg' s.nextTemp ∧
+                      ProcMultiOK σ reg' sq0 (Rel.mat oid name target) s matAs res b s' := by
+                  intro hms
+                  have hnoneN : (⟨s1.st, s1.sq, s1.hooks, k + 1 + 1, s1.det⟩ : ProcState).payloadOf
+                      (Rel.mat (k + 1) name x) = none := by
+                    simp [ProcState.payloadOf, Rel.oid, P.inv.freshSt (k + 1) (by omega), P.inv.sq,
+                      P.inv.fresh (k + 1) (by omega)]
+                  simp [hms, setMatOid, tempRoot, lookThrough, hnoneN, hmp, bind, ExceptT.bind, ExceptT.mk,
+                    ExceptT.bindCont, StateT.bind, StateT.get, StateT.modifyGet, pure, ExceptT.pure, StateT.pure,
+                    Functor.map, StateT.map] at h
+                  obtain ⟨h1, h2'⟩ := run_ok_inj h
+                  injection h1 with h1 hb
+                  subst h1; subst h2'; subst hb
+                  have hnoneK : s2.st.payload (k + 1) = none := by
+                    cases hpk : s2.st.payload (k + 1) with
+                    | none => rfl
+                    | some p =>
+                      rcases hn2 (k + 1) (by simp [hpk]) with hh | hh
+                      · rw [show (⟨s1.st, s1.sq, s1.hooks, k + 1 + 1, s1.det⟩ : ProcState).st = s1.st from rfl,
+                          P.inv.freshSt (k + 1) (by omega)] at hh
+                        cases hh
+                      · exact absurd (matOids_below _ hbelowX _ hh) (Nat.lt_irrefl _)
+                  have hrowsX : it.rows σ = .ok (sem σ x) := by rw [hrows, hsemx]
+                  refine ⟨regSet reg1 (k + 1) (sem σ x), hext.trans (regSet_ext _ _ _) hle, ?_, Or.inl ?_, ?_, ?_, ?_,
+                    ?_, ?_, fun _ => payloadThrough_isSome _ _ ?_, trivial,
+                    (by simp [Rel.MatPay, Res.get, ProcState.attach, ExecState.payload]), ?_, ?_, ?_⟩
+                  · refine ⟨P.inv.wf, P.inv.truthful, P.inv.kd, ⟨by simp [regSet], ?_⟩, ⟨?_, ?_⟩, ?_, ?_, ?_, ?_, ?_,
+                      ⟨fun hmem => Nat.lt_irrefl _ (matOids_below _ hbelowX _ hmem), P.inv.acyc⟩, ?_, ?_⟩
+                    · exact RegOK_ext σ (regSet_ext _ _ _) _ P.inv.regOK hbelowX
+                    · show k + 1 < s2.nextTemp
+                      omega
+                    · exact markersBelow_mono (by show k + 1 ≤ s2.nextTemp; omega) _ hbelowX
+                    · exact StoreOK_set (StoreOK.cons h2 oid it _ hi hregoid hrows) (k + 1) it _ hi hrowsX
+                    · show s2.sq = sq0
+                      rw [hsq']; exact P.inv.sq
+                    · exact ⟨P.inv.fresh _ (by omega), P.inv.free⟩
                     · intro o ho
-                      have hne : (oid == o) = false := by
-                        have : s1.nextTemp ≤ o := ho
-                        simp; omega
-                      have := P.inv.freshSt o ho
-                      simpa [ProcState.attach, ExecState.payload, List.find?_cons, hne] using this
-                    · simp [ProcState.attach, ExecState.payload]
-                    · exact P.mono.trans (PayMono.cons s1.st oid it s1.st.evals)
-                    · simp [ProcState.attach, ProcState.payloadOf, Rel.oid, ExecState.payload, Res.get]
-                    · exact PayNewP.cons (fun o ho => (P.newp o ho).imp id (Or.imp (fun h => List.mem_cons_of_mem _ h) id))
-                        oid it s1.st.evals (Or.inl (by simp [Rel.matOids]))
-                | new x =>
-                  obtain ⟨f1, t', hx, het'⟩ := hshape x rfl
-                  subst hx
-                  have hsome := P.flag rfl
-                  simp only [Res.get] at hsome
-                  cases hpt : payloadThrough s1 (Rel.transfer f1 d t') with
-                  | none => simp [hpt] at hsome
-                  | some p =>
-                    obtain ⟨it, hpit, hi, hrows⟩ := payloadThrough_rows σ reg1 s1 P.inv.store _
-                      (by rw [P.inv.sq]; exact P.inv.free) P.inv.regOK P.exec p hpt
-                    subst hpit
-                    have hsemx : sem σ (Rel.transfer f1 d t') = sem σ (Rel.transfer o1 d t0) := P.sem_eq
-                    have hdk : d.kind = .iter := hmt.1
-                    have hms : matSimplify (Rel.transfer f1 d t') = false := by
-                      have : (d == t'.engine) = false := by
-                        rw [het']; simpa using hxo'
-                      simp [matSimplify, this]
-                    have hmat : materialize s1.store defaultFuel (Rel.transfer f1 d t') name =
-                        .ok (.new (.mat 0 name (Rel.transfer f1 d t'))) := by
-                      rw [defaultFuel_eq, materialize]
-                      simp [Rel.engine, hdk, hms]
-                    have hpos : s1.nextTemp ≠ 0 := by omega
-                    have hnone : ((({ s1 with nextTemp := s1.nextTemp + 1 } : ProcState).payloadOf
-                        (Rel.mat s1.nextTemp name (Rel.transfer f1 d t')))).isSome = false := by
-                      simp [ProcState.payloadOf, Rel.oid, P.inv.freshSt s1.nextTemp (Nat.le_refl _), P.inv.sq,
-                        P.inv.fresh s1.nextTemp (Nat.le_refl _)]
-                    cases hk : s1.nextTemp with
-                    | zero => exact absurd hk hpos
-                    | succ k =>
-                      rw [hk] at hnone
-                      simp [bind, ExceptT.bind, ExceptT.mk, ExceptT.bindCont, StateT.bind, get, getThe,
-                        MonadStateOf.get, StateT.get, set, StateT.set, modify, modifyGet, MonadStateOf.modifyGet,
-                        StateT.modifyGet, MonadState.modifyGet, liftM, monadLift, MonadLift.monadLift, ExceptT.lift,
-                        ExceptT.run, StateT.run, pure, ExceptT.pure, StateT.pure, Functor.map, StateT.map, hc, hr,
-                        Res.get, hmat, freshTemp, setMatOid, tempRoot, lookThrough, hk, hnone,
-                        payloadThrough_temp, hpt] at h
-                      have hpt' : payloadThrough ⟨s1.st, s1.sq, s1.hooks, k + 1 + 1, s1.det⟩ (Rel.transfer f1 d t') =
-                          some (.iter it) := by
-                        have := payloadThrough_temp s1 (k + 1 + 1) (Rel.transfer f1 d t')
-                        rw [hpt] at this; exact this
-                      cases hpo : (⟨s1.st, s1.sq, s1.hooks, k + 1 + 1, s1.det⟩ : ProcState).payloadOf
-                          (Rel.mat (k + 1) name (Rel.transfer f1 d t')) with
-                      | some q => rw [hpo] at hnone; cases hnone
-                      | none =>
-                        simp [hpo, hpt', StateT.bind, StateT.map, StateT.get, StateT.modifyGet, ExceptT.bindCont,
-                          StateT.pure] at h
-                        obtain ⟨h1, h2⟩ := run_ok_inj h
-                        injection h1 with h1 hb
-                        subst h1; subst h2; subst hb
-                        have hrowsX : it.rows σ = .ok (sem σ (Rel.transfer f1 d t')) := hrows
-                        have hle : s.nextTemp ≤ k + 1 := by have := P.temp; omega
-                        have hbelowX : (Rel.transfer f1 d t').markersBelow (k + 1) := by
-                          rw [← hk]; exact P.inv.below
-                        refine ⟨regSet reg1 (k + 1) (sem σ (Rel.transfer f1 d t')),
-                          hext.trans (regSet_ext _ _ _) hle, ?_, Or.inl ?_, ?_, ?_, ?_, ?_, ?_,
-                          fun _ => payloadThrough_isSome _ _ ?_, (fun _ _ _ hh => by cases hh), ?_, ?_, ?_⟩
-                        · refine ⟨P.inv.wf, P.inv.truthful, P.inv.kd, ⟨by simp [regSet], ?_⟩, ⟨?_, ?_⟩, ?_, P.inv.sq, ?_, ?_, ?_,
-                            ⟨fun hmem => Nat.lt_irrefl _ (matOids_below _ hbelowX _ hmem), P.inv.acyc⟩⟩
-                          · exact RegOK_ext σ (regSet_ext _ _ _) _ P.inv.regOK hbelowX
-                          · show k + 1 < k + 1 + 1
-                            omega
-                          · exact markersBelow_mono (by show k + 1 ≤ k + 1 + 1; omega) _ hbelowX
-                          · exact StoreOK_set (StoreOK.cons P.inv.store oid it _ hi hregoid (by rw [hrowsX, hsemx]))
-                              (k + 1) it _ hi hrowsX
-                          · exact ⟨P.inv.fresh _ (by rw [hk]; exact Nat.le_refl _), P.inv.free⟩
-                          · intro o ho
-                            exact P.inv.fresh o (by have : k + 1 + 1 ≤ o := ho; omega)
-                          · intro o ho
-                            have ho' : k + 1 + 1 ≤ o := ho
-                            have hne1 : (k + 1 == o) = false := by simp; omega
-                            have hne2 : (oid == o) = false := by simp; omega
-                            have := P.inv.freshSt o (by omega)
-                            simpa [ProcState.attach, ExecState.payload, List.find?_cons, hne1, hne2] using this
-                        · simp [ProcState.attach, ExecState.payload]
-                        · intro o ho
-                          have h1 := P.mono o ho
-                          by_cases a : (k + 1 == o) = true
-                          · simp [ProcState.attach, ExecState.payload, List.find?_cons, a]
-                          · by_cases b : (oid == o) = true
-                            · simp [ProcState.attach, ExecState.payload, List.find?_cons, a, b]
-                            · simpa [ProcState.attach, ExecState.payload, List.find?_cons, a, b] using h1
-                        · simpa [Res.get, sem] using hsemx
-                        · intro u
-                          simpa [Res.get, Rel.columns] using P.cols u
-                        · simpa [Res.get, Rel.engine] using P.engine
-                        · show s.nextTemp ≤ k + 1 + 1
-                          omega
-                        · simp [ProcState.attach, ProcState.payloadOf, Rel.oid, ExecState.payload, Res.get]
-                        · exact PayNewP.cons (PayNewP.cons
-                            (fun o ho => (P.newp o ho).imp id (Or.imp (fun h => List.mem_cons_of_mem _ h) id))
-                            oid it s1.st.evals (Or.inl (by simp [Rel.matOids]))) (k + 1) it s1.st.evals (Or.inr hle)
-                        · intro o ho
-                          simp only [Res.get, Rel.matOids, List.mem_cons] at ho
-                          rcases ho with ho | ho
-                          · rw [ho]; exact Or.inr hle
-                          · exact (P.mats o (by simpa [Res.get, Rel.matOids] using ho)).imp
-                              (fun h => List.mem_cons_of_mem _ h) id
-                        · refine P.keep.trans ((PayKeep.cons s1.st oid it s1.st.evals hnone1).trans
-                            (PayKeep.cons _ (k + 1) it s1.st.evals ?_))
-                          have hne : (oid == k + 1) = false := by simp; omega
-                          have := P.inv.freshSt (k + 1) (by omega)
-                          simpa [ExecState.payload, List.find?_cons, hne] using this
+                      have ho' : s2.nextTemp ≤ o := ho
+                      exact P.inv.fresh o (by omega)
+                    · intro o ho
+                      have ho' : s2.nextTemp ≤ o := ho
+                      have hne1 : (k + 1 == o) = false := by simp; omega
+                      have hne2 : (oid == o) = false := by simp; omega
+                      have := hfs2 o (by omega)
+                      simpa [ProcState.attach, ExecState.payload, List.find?_cons, hne1, hne2] using this
+                    · intro o ho
+                      have ho' : o ∈ (k + 1) :: x.matOids := ho
+                      rcases List.mem_cons.mp ho' with ho | ho
+                      · omega
+                      · exact P.inv.pos o ho
+                    · show 0 < s2.nextTemp
+                      omega
+                  · simp [ProcState.attach, ExecState.payload]
+                  · intro o ho
+                    have h1 := hmono2 o ho
+                    by_cases a : (k + 1 == o) = true
+                    · simp [ProcState.attach, ExecState.payload, List.find?_cons, a]
+                    · by_cases bb : (oid == o) = true
+                      · simp [ProcState.attach, ExecState.payload, List.find?_cons, a, bb]
+                      · simpa [ProcState.attach, ExecState.payload, List.find?_cons, a, bb] using h1
+                  · simpa [Res.get, sem] using hsemx
+                  · intro u
+                    simpa [Res.get, Rel.columns] using P.cols u
+                  · simpa [Res.get, Rel.engine] using P.engine
+                  · show s.nextTemp ≤ s2.nextTemp
+                    omega
+                  · simp [ProcState.attach, ProcState.payloadOf, Rel.oid, ExecState.payload, Res.get]
+                  · exact PayNewP.cons (PayNewP.cons hstep oid it s2.st.evals (Or.inl (by simp [Rel.matOids])))
+                      (k + 1) it s2.st.evals (Or.inr hle)
+                  · intro o ho
+                    simp only [Res.get, Rel.matOids, List.mem_cons] at ho
+                    rcases ho with ho | ho
+                    · rw [ho]; exact Or.inr hle
+                    · exact (P.mats o ho).imp (fun hh => List.mem_cons_of_mem oid hh) id
+                  · refine hkeep2.trans ((PayKeep.cons s2.st oid it s2.st.evals hnone2).trans
+                      (PayKeep.cons _ (k + 1) it s2.st.evals ?_))
+                    have hne : (oid == k + 1) = false := by simp; omega
+                    simpa [ExecState.payload, List.find?_cons, hne] using hnoneK
+                -- the processed target is itself locked (a leaf or a Materialization): nothing is added, its payload is
+                -- handed to the input's Materialization
+                have hN2 : ∀ (it0 : Iterable), ItOK it0 → it0.rows σ = .ok (sem σ x) → x.MatPay s1.st →
+                    (Except.ok (Res.new x, true),
+                      (⟨s1.st, s1.sq, s1.hooks, k + 1 + 1, s1.det⟩ : ProcState).attach oid (.iter it0)) =
+                      ((Except.ok (res, b) : Except Err (Res × Bool)), s') →
+                    ((⟨s1.st, s1.sq, s1.hooks, k + 1 + 1, s1.det⟩ : ProcState).payloadOf x).isSome = true →
+                    ∃ reg', RegExt reg reg' s.nextTemp ∧
+                      ProcMultiOK σ reg' sq0 (Rel.mat oid name target) s matAs res b s' := by
+                  intro it0 hi0 hr0' hmp0 hh hps
+                  obtain ⟨h1, h2'⟩ := run_ok_inj hh
+                  injection h1 with h1 hb
+                  subst h1; subst h2'; subst hb
+                  have hst : StoreOK σ reg1 ((⟨s1.st, s1.sq, s1.hooks, k + 1 + 1, s1.det⟩ : ProcState).attach oid
+                      (.iter it0)).st := StoreOK.cons P.inv.store oid it0 _ hi0 hregoid (by rw [hr0', hsemx])
+                  refine ⟨reg1, hext, P.inv.same (RegExt.refl _ _) (by show s1.nextTemp ≤ k + 1 + 1; omega) hst P.inv.sq ?_,
+                    IterOKs.mono (PayMono.cons s1.st oid it0 s1.st.evals) _ P.exec, ?_, ?_, ?_, ?_, ?_,
+                    fun _ => payloadThrough_isSome _ _ ?_, P.shape,
+                    MatPay.mono (PayMono.cons s1.st oid it0 s1.st.evals) _ hmp0, ?_, ?_, ?_⟩
+                  · intro o ho
+                    have ho' : k + 1 + 1 ≤ o := ho
+                    have hne : (oid == o) = false := by simp; omega
+                    have := P.inv.freshSt o (by omega)
+                    simpa [ProcState.attach, ExecState.payload, List.find?_cons, hne] using this
+                  · exact P.mono.trans (PayMono.cons s1.st oid it0 s1.st.evals)
+                  · simpa [Res.get, sem] using hsemx
+                  · intro u
+                    simpa [Res.get, Rel.columns] using P.cols u
+                  · simpa [Res.get, Rel.engine] using P.engine
+                  · show s.nextTemp ≤ k + 1 + 1
+                    omega
+                  · exact payloadOf_mono (s := ⟨s1.st, s1.sq, s1.hooks, k + 1 + 1, s1.det⟩)
+                      (s' := ProcState.attach ⟨s1.st, s1.sq, s1.hooks, k + 1 + 1, s1.det⟩ oid (.iter it0)) rfl
+                      (PayMono.cons s1.st oid it0 s1.st.evals) x hps
+                  · exact PayNewP.cons hlift oid it0 s1.st.evals (Or.inl (by simp [Rel.matOids]))
+                  · intro o ho
+                    exact (P.mats o ho).imp (fun hh => List.mem_cons_of_mem oid hh) id
+                  · exact P.keep.trans (PayKeep.cons s1.st oid it0 s1.st.evals hnone1)
+                cases x with
+                | unary op' t' c' => exact hN1 rfl
+                | binary op' l' r' c' => exact hN1 rfl
+                | transfer o' d' t' =>
+                  have hd : d' ≠ t'.engine := P.shape
+                  exact hN1 (by
+                    have : (d' == t'.engine) = false := by simpa using hd
+                    simp [matSimplify, this])
+                | select a1 a2 a3 a4 a5 a6 a7 a8 a9 => exact absurd P.shape (by simp [Rel.ProcShape, Res.get])
+                | leaf loid le lcols lnm lmn lmx lpl lms =>
+                  have hpl : lpl = true := P.exec
+                  have hsqn : s1.sq.payload loid = none := hfreeX
+                  have hpo : (⟨s1.st, s1.sq, s1.hooks, k + 1 + 1, s1.det⟩ : ProcState).payloadOf
+                      (Rel.leaf loid le lcols lnm lmn lmx lpl lms) = some (.iter (.leafRef loid)) := by
+                    simp [ProcState.payloadOf, hpl, hsqn]
+                  simp [matSimplify, tempRoot, lookThrough, hpo, bind, ExceptT.bind, ExceptT.mk,
+                    ExceptT.bindCont, StateT.bind, StateT.get, StateT.modifyGet, pure, ExceptT.pure, StateT.pure,
+                    Functor.map, StateT.map] at h
+                  exact hN2 (.leafRef loid) trivial rfl trivial h (by rw [hpo]; rfl)
+                | mat o nm t1 =>
+                  have hopos : 0 < o := P.inv.pos o (by simp [Rel.matOids, Res.get])
+                  have hmpay : (s1.st.payload o).isSome = true := P.matpay
+                  cases ho : o with
+                  | zero => omega
+                  | succ o' =>
+                    subst ho
+                    cases hpo' : s1.st.payload (o' + 1) with
+                    | none => simp [hpo'] at hmpay
+                    | some it0 =>
+                      obtain ⟨hi0, rows, hr, hrows0⟩ := P.inv.store (o' + 1) it0 hpo'
+                      have hreg1 : reg1 (o' + 1) = some (sem σ t1) := P.inv.regOK.1
+                      rw [hreg1] at hr
+                      injection hr with hr
+                      have hpo : (⟨s1.st, s1.sq, s1.hooks, k + 1 + 1, s1.det⟩ : ProcState).payloadOf
+                          (Rel.mat (o' + 1) nm t1) = some (.iter it0) := by
+                        simp [ProcState.payloadOf, Rel.oid, hpo']
+                      simp [matSimplify, tempRoot, lookThrough, hpo, bind, ExceptT.bind, ExceptT.mk,
+                        ExceptT.bindCont, StateT.bind, StateT.get, StateT.modifyGet, pure, ExceptT.pure, StateT.pure,
+                        Functor.map, StateT.map] at h
+                      exact hN2 it0 hi0 (by rw [hrows0, ← hr]; rfl) P.matpay h (by rw [hpo]; rfl)
   | .unary op target c, fuel, matAs, s, reg, hm, hsql, T, hf, res, b, s', h => by
     cases fuel with
     | zero => simp [Rel.size] at hf
@@ -755,7 +750,7 @@ theorem process_multi_iter (σ : Leaves) (h0 : sq0.payload 0 = none) :
         have := T.kd; simp only [keyDetermined, Bool.and_eq_true] at this; exact this.1
       obtain ⟨hmt, hnid, har⟩ := hm
       have Tt : TreeInv σ reg sq0 target s :=
-        ⟨T.wf.1, T.truthful, hkd', T.regOK, T.below, T.store, T.sq, T.free, T.fresh, T.freshSt, T.acyc⟩
+        ⟨T.wf.1, T.truthful, hkd', T.regOK, T.below, T.store, T.sq, T.free, T.fresh, T.freshSt, T.acyc, T.pos, T.tpos⟩
       unfold processRec at h
       cases hr0 : (processRec σ n target none).run.run s with
       | mk r1 s1 =>
@@ -781,7 +776,7 @@ theorem process_multi_iter (σ : Leaves) (h0 : sq0.payload 0 = none) :
             injection h1 with h1 hb
             subst h1; subst h2; subst hb
             exact ⟨reg1, hext, T.same hext P.temp P.inv.store P.inv.sq P.inv.freshSt, ⟨P.exec, hnid, har⟩, P.mono, rfl,
-              fun _ => Iff.rfl, rfl, P.temp, (fun hh => by cases hh), (fun _ _ _ hh => by cases hh),
+              fun _ => Iff.rfl, rfl, P.temp, (fun hh => by cases hh), P.shape, P.matpay,
               (fun o ho => by simpa [Rel.matOids] using P.newp o ho), (fun _ h => Or.inl h), P.keep⟩
           | new t' =>
             have hk : t'.engine.kind = .iter := by
@@ -799,10 +794,10 @@ theorem process_multi_iter (σ : Leaves) (h0 : sq0.payload 0 = none) :
               obtain ⟨h1, h2⟩ := run_ok_inj h
               injection h1 with h1 hb
               subst h1; subst h2; subst hb
-              obtain ⟨I, hx, hs, hc, he, hmo⟩ := reapply_iter σ reg1 s1.store op target t' c s1 r hnid har T.wf T.kd P.inv
-                P.exec P.sem_eq P.cols hk ha
+              obtain ⟨I, hx, hs, hc, he, hmo, hsp, hmpay⟩ := reapply_iter σ reg1 s1.store op target t' c s1 r hnid har T.wf T.kd
+                P.inv P.exec P.shape P.matpay P.sem_eq P.cols hk ha
               exact ⟨reg1, hext, I, hx, P.mono, hs, fun u => hc u, he.trans P.engine, P.temp, (fun hh => by cases hh),
-                (fun _ _ _ hh => by cases hh), (fun o ho => by simpa [Rel.matOids] using P.newp o ho),
+                hsp, hmpay, (fun o ho => by simpa [Rel.matOids] using P.newp o ho),
                 (fun o ho => by simpa [Rel.matOids, Res.get] using P.mats o (hmo o ho)), P.keep⟩
   | .binary op l r c, fuel, matAs, s, reg, hm, hsql, T, hf, res, b, s', h => by
     cases fuel with
@@ -817,7 +812,8 @@ theorem process_multi_iter (σ : Leaves) (h0 : sq0.payload 0 = none) :
         simp only [keyDetermined, Bool.and_eq_true] at hkd
         obtain ⟨hwl, hwr, hcc, hcols⟩ := T.wf
         have Tl : TreeInv σ reg sq0 l s :=
-          ⟨hwl, T.truthful.1, hkd.1, T.regOK.1, T.below.1, T.store, T.sq, T.free.1, T.fresh, T.freshSt, T.acyc.1⟩
+          ⟨hwl, T.truthful.1, hkd.1, T.regOK.1, T.below.1, T.store, T.sq, T.free.1, T.fresh, T.freshSt, T.acyc.1,
+            fun o ho => T.pos o (by simp [Rel.matOids, ho]), T.tpos⟩
         unfold processRec at h
         cases hr0 : (processRec σ n l none).run.run s with
         | mk r1 s1 =>
@@ -835,7 +831,8 @@ theorem process_multi_iter (σ : Leaves) (h0 : sq0.payload 0 = none) :
               (by simp [Rel.size] at hf; omega) nl lp s1 hr0
             have Tr : TreeInv σ reg1 sq0 r s1 :=
               ⟨hwr, T.truthful.2, hkd.2, RegOK_ext σ hext1 r T.regOK.2 T.below.2,
-                markersBelow_mono P1.temp r T.below.2, P1.inv.store, P1.inv.sq, T.free.2, P1.inv.fresh, P1.inv.freshSt, T.acyc.2⟩
+                markersBelow_mono P1.temp r T.below.2, P1.inv.store, P1.inv.sq, T.free.2, P1.inv.fresh, P1.inv.freshSt, T.acyc.2,
+                fun o ho => T.pos o (by simp [Rel.matOids, ho]), P1.inv.tpos⟩
             cases hq0 : (processRec σ n r none).run.run s1 with
             | mk r2 s2 =>
               have hq := hq0
@@ -874,19 +871,19 @@ theorem process_multi_iter (σ : Leaves) (h0 : sq0.payload 0 = none) :
                 have finishNew : ∀ (X : Rel) (fl : Bool), TreeInv σ reg2 sq0 X s2 → X.IterOKs s2.st →
                     sem σ X = sem σ l ++ sem σ r →
                     (∀ u, u ∈ X.columns ↔ u ∈ l.columns) → X.engine = l.engine →
-                    (fl = true → (payloadThrough s2 X).isSome = true) →
+                    (fl = true → (payloadThrough s2 X).isSome = true) → X.ProcShape → X.MatPay s2.st →
                     (∀ o, o ∈ X.matOids → o ∈ (Rel.binary .chain l r c).matOids ∨ s.nextTemp ≤ o) →
                     (Except.ok (Res.new X, fl), s2) = ((Except.ok (res, b) : Except Err (Res × Bool)), s') →
                     ∃ reg', RegExt reg reg' s.nextTemp ∧ ProcMultiOK σ reg' sq0 (Rel.binary .chain l r c) s matAs res b s' := by
-                  intro X fl IX hxX hsX hcX heX hfX hmX hh
+                  intro X fl IX hxX hsX hcX heX hfX hshX hmpX hmX hh
                   obtain ⟨h1, h2⟩ := run_ok_inj hh
                   injection h1 with h1 hb
                   subst h1; subst h2; subst hb
                   exact ⟨reg2, hextAll, IX, hxX, hmono, by rw [hsemC]; exact hsX, fun u => by rw [hcc]; exact hcX u, heX, htemp,
-                    hfX, (fun _ _ _ hh => by cases hh), hnewp, hmX, P1.keep.trans P2.keep⟩
+                    hfX, hshX, hmpX, hnewp, hmX, P1.keep.trans P2.keep⟩
                 by_cases hl0 : (nl.get l).maxRows = some 0
                 · simp only [hl0, if_true, StateT.pure, pure] at h
-                  refine finishNew (nr.get r) rp R' P2.exec ?_ ?_ ?_ P2.flag hmR h
+                  refine finishNew (nr.get r) rp R' P2.exec ?_ ?_ ?_ P2.flag P2.shape P2.matpay hmR h
                   · rw [P2.sem_eq, ← P1.sem_eq, hempty _ L'.wf L'.truthful hl0]; rfl
                   · intro u; rw [P2.cols u]; exact (hcols u).symm
                   · rw [P2.engine]; exact heng.symm
@@ -894,7 +891,8 @@ theorem process_multi_iter (σ : Leaves) (h0 : sq0.payload 0 = none) :
                   by_cases hr0' : (nr.get r).maxRows = some 0
                   · simp only [hr0', if_true, StateT.pure, pure] at h
                     refine finishNew (nl.get l) lp L' L'x ?_ (fun u => P1.cols u) P1.engine
-                      (fun hh => payloadThrough_mono (P2.inv.sq.trans P1.inv.sq.symm) P2.mono _ (P1.flag hh)) hmL h
+                      (fun hh => payloadThrough_mono (P2.inv.sq.trans P1.inv.sq.symm) P2.mono _ (P1.flag hh)) P1.shape
+                      (MatPay.mono P2.mono _ P1.matpay) hmL h
                     rw [P1.sem_eq, ← P2.sem_eq, hempty _ R'.wf R'.truthful hr0']; simp
                   · simp only [hr0', if_false] at h
                     have hk : (nl.get l).engine.kind = .iter := by rw [P1.engine]; exact MultiIter.kind l hml
@@ -908,8 +906,8 @@ theorem process_multi_iter (σ : Leaves) (h0 : sq0.payload 0 = none) :
                       | error e => simp only [hb] at hh; injection hh with h1 _; cases h1
                       | ok bb =>
                         simp only [hb] at hh
-                        obtain ⟨IX, hxX, hsX, hcX, heX, hmX⟩ := rechain_iter σ reg2 s2.store _ _ s2 bb L' R' L'x P2.exec hk hb
-                        refine finishNew _ false IX hxX ?_ ?_ ?_ (fun hh => by cases hh)
+                        obtain ⟨IX, hxX, hsX, hcX, heX, hmX, hshX, hmpX⟩ := rechain_iter σ reg2 s2.store _ _ s2 bb L' R' L'x P2.exec hk hb
+                        refine finishNew _ false IX hxX ?_ ?_ ?_ (fun hh => by cases hh) hshX hmpX
                           (fun o ho => (hmX o ho).elim (hmL o) (hmR o)) hh
                         · rw [hsX, P1.sem_eq, P2.sem_eq]
                         · intro u; rw [hcX u]; exact P1.cols u
@@ -924,7 +922,7 @@ theorem process_multi_iter (σ : Leaves) (h0 : sq0.payload 0 = none) :
                         subst h1; subst h2; subst hb
                         exact ⟨reg2, hextAll, T.same hextAll htemp P2.inv.store P2.inv.sq P2.inv.freshSt,
                           ⟨L'x, P2.exec, heng, trivial⟩, hmono, rfl, fun _ => Iff.rfl, rfl, htemp, (fun hh => by cases hh),
-                          (fun _ _ _ hh => by cases hh), hnewp, (fun _ h => Or.inl h), P1.keep.trans P2.keep⟩
+                          trivial, trivial, hnewp, (fun _ h => Or.inl h), P1.keep.trans P2.keep⟩
                       | new y =>
                         apply hrebuild
                         simp only [StateT.bind, StateT.map, StateT.get, ExceptT.bindCont, Functor.map, throw,
@@ -941,7 +939,7 @@ theorem process_multi_iter (σ : Leaves) (h0 : sq0.payload 0 = none) :
     cases fuel with
     | zero => simp [Rel.size] at hf
     | succ n =>
-      obtain ⟨hdk, hsrc⟩ := hm
+      obtain ⟨hdk, hne, hsrc⟩ := hm
       -- a NEW Transfer node over the untouched target, holding a payload with the target's rows
       have hnewnode : ∀ (s2 : ProcState) (it : Iterable), s2.st = s.st → s2.sq = s.sq → s2.nextTemp = s.nextTemp →
           ItOK it → it.rows σ = .ok (sem σ target) →
@@ -957,11 +955,10 @@ theorem process_multi_iter (σ : Leaves) (h0 : sq0.payload 0 = none) :
           fun _ => Iff.rfl, rfl, ?_,
           (fun _ => payloadThrough_isSome _ _ (by
             simp [ProcState.attach, ProcState.payloadOf, Rel.oid, ExecState.payload, Res.get])),
-          (fun o d t0 hh => by
-            injection hh with _ hd ht; subst hd; subst ht
-            exact ⟨fun h => h, fun x hx => by injection hx with hx; exact ⟨_, _, hx.symm, rfl⟩⟩), ?_,
+          hne, trivial, ?_,
           (fun _ h => Or.inl h), ?_⟩
-        · refine ⟨T.wf, T.truthful, T.kd, ⟨by simp [regSet], ?_⟩, ⟨?_, ?_⟩, ?_, ?_, ?_, ?_, ?_, T.acyc⟩
+        · refine ⟨T.wf, T.truthful, T.kd, ⟨by simp [regSet], ?_⟩, ⟨?_, ?_⟩, ?_, ?_, ?_, ?_, ?_, T.acyc, T.pos,
+            Nat.lt_succ_of_lt (by rw [hnt]; exact T.tpos)⟩
           · exact RegOK_ext σ (by rw [hnt]; exact regSet_ext _ _ _) _ T.regOK.2 T.below.2
           · show s2.nextTemp < s2.nextTemp + 1
             omega
@@ -1010,7 +1007,7 @@ theorem process_multi_iter (σ : Leaves) (h0 : sq0.payload 0 = none) :
           | none => simp [Rel.oid, hp] at hc
           | some _ => rfl
         exact ⟨reg, RegExt.refl _ _, T, Or.inl hpay, PayMono.refl _, rfl, fun _ => Iff.rfl, rfl, Nat.le_refl _,
-          fun _ => payloadThrough_isSome _ _ hc, (fun _ _ _ _ => ⟨fun _ => rfl, fun _ hx => by cases hx⟩),
+          fun _ => payloadThrough_isSome _ _ hc, hne, trivial,
           PayNewP.refl _ _ _, (fun _ h => Or.inl h), PayKeep.refl _⟩
       | false =>
        by_cases hji : (Rel.transfer oid dest target).isJoinIdentity = true
@@ -1034,7 +1031,7 @@ theorem process_multi_iter (σ : Leaves) (h0 : sq0.payload 0 = none) :
            rcases hsrc with ⟨hki, hmt⟩ | ⟨hks, hraw, hleaf⟩
            · -- the source lives in an iteration engine
              have Tt : TreeInv σ reg sq0 target s :=
-               ⟨T.wf, T.truthful, T.kd, T.regOK.2, T.below.2, T.store, T.sq, T.free.2 hki, T.fresh, T.freshSt, T.acyc⟩
+               ⟨T.wf, T.truthful, T.kd, T.regOK.2, T.below.2, T.store, T.sq, T.free.2 hki, T.fresh, T.freshSt, T.acyc, T.pos, T.tpos⟩
              cases hr0 : (processRec σ n target none).run.run s with
              | mk r1 s1 =>
                have hr := hr0
@@ -1067,9 +1064,7 @@ theorem process_multi_iter (σ : Leaves) (h0 : sq0.payload 0 = none) :
                    hext.trans (regSet_ext _ _ _) (by rw [hf1]; exact P.temp), ?_, ?_, ?_, ?_, ?_, rfl, ?_,
                    (fun _ => payloadThrough_isSome _ _ (by
                      simp [ProcState.attach, ProcState.payloadOf, Rel.oid, ExecState.payload, Res.get])),
-                   (fun o d t0 hh => by
-                     injection hh with _ hd ht; subst hd; subst ht
-                     exact ⟨fun h => h, fun x hx => by injection hx with hx; exact ⟨_, _, hx.symm, P.engine⟩⟩),
+                   (by show dest ≠ (nt.get target).engine; rw [P.engine]; exact hne), trivial,
                    PayNewP.cons (PayNewP.trans P.newp (PayNewP.of_new s1.nextTemp hn2) P.temp
                      (fun o h => Or.inl (by simpa [Rel.matOids] using h))
                      (fun o h => (P.mats o h).imp (fun h => by simpa [Rel.matOids] using h) id)) s2.nextTemp _ s2.st.evals
@@ -1077,7 +1072,8 @@ theorem process_multi_iter (σ : Leaves) (h0 : sq0.payload 0 = none) :
                    (fun o ho => (P.mats o (by simpa [Rel.matOids, Res.get] using ho)).imp
                      (fun h => by simpa [Rel.matOids] using h) id),
                    P.keep.trans (hk2.trans (PayKeep.cons s2.st s2.nextTemp _ s2.st.evals (hfs2 _ (Nat.le_refl _))))⟩
-                 · refine ⟨P.inv.wf, P.inv.truthful, P.inv.kd, ⟨by simp [regSet], ?_⟩, ⟨?_, ?_⟩, ?_, ?_, ?_, ?_, ?_, P.inv.acyc⟩
+                 · refine ⟨P.inv.wf, P.inv.truthful, P.inv.kd, ⟨by simp [regSet], ?_⟩, ⟨?_, ?_⟩, ?_, ?_, ?_, ?_, ?_, P.inv.acyc,
+                     P.inv.pos, Nat.lt_succ_of_lt (by rw [hf1]; exact P.inv.tpos)⟩
                    · exact RegOK_ext σ (regSet_ext _ _ _) _ P.inv.regOK (by rw [hf1]; exact P.inv.below)
                    · show s2.nextTemp < s2.nextTemp + 1
                      omega
@@ -1139,7 +1135,8 @@ theorem process_multi_then_execute (σ : Leaves) (reg : Nat → Option (List Row
     (sq : SqlState) (h0 : sq.payload 0 = none) (hm : t.MultiIter) (hsql : t.SqlSrcOK σ sq) (hwf : t.WF)
     (htr : t.Truthful σ) (hkd : keyDetermined σ t = true) (hreg : t.RegOK σ reg) (hb : t.markersBelow tempBase)
     (hs : StoreOK σ reg st) (hfree : t.sqFree sq) (hfresh : ∀ o, tempBase ≤ o → sq.payload o = none)
-    (hfreshSt : ∀ o, tempBase ≤ o → st.payload o = none) (hac : t.Acyclic) (hf : t.size ≤ defaultFuel)
+    (hfreshSt : ∀ o, tempBase ≤ o → st.payload o = none) (hac : t.Acyclic) (hpos : ∀ o, o ∈ t.matOids → 0 < o)
+    (hf : t.size ≤ defaultFuel)
     (res : Res) (ps : ProcState) (h : processTop σ st sq t = (.ok res, ps)) :
     (res.get t).engine = t.engine ∧ (∀ u, u ∈ (res.get t).columns ↔ u ∈ t.columns) ∧
       ∃ it s', exec σ (res.get t).engine (res.get t) ps.st = .ok (it, s') ∧ it.rows σ = .ok (sem σ t) := by
@@ -1156,12 +1153,50 @@ theorem process_multi_then_execute (σ : Leaves) (reg : Nat → Option (List Row
       obtain ⟨h1, h2⟩ := run_ok_inj h
       subst h1; subst h2
       obtain ⟨reg', _, P⟩ := process_multi_iter σ h0 t defaultFuel none { st := st, sq := sq } reg hm hsql
-        ⟨hwf, htr, hkd, hreg, hb, hs, rfl, hfree, hfresh, hfreshSt, hac⟩ hf res0 b s1 hr
+        ⟨hwf, htr, hkd, hreg, hb, hs, rfl, hfree, hfresh, hfreshSt, hac, hpos, (by show 0 < 9000000; omega)⟩ hf res0 b s1 hr
       refine ⟨P.engine, P.cols, ?_⟩
       have := exec_correctM σ reg' (res0.get t) (res0.get t).engine s1.st P.exec P.inv.wf P.inv.truthful
         P.inv.kd P.inv.regOK P.inv.store rfl
       unfold ExecGoodM at this
       obtain ⟨it, s'', a, bb, _, _, _, _⟩ := this
       exact ⟨it, s'', a, by rw [bb, P.sem_eq]⟩
+
+/-- A history of `process` calls on ONE input tree, each starting in the state the previous one left: the results
+(returned tree and state) in order. -/
+inductive ProcRuns (σ : Leaves) (fuel : Nat) (t : Rel) : ProcState → List (Res × ProcState) → Prop
+  | nil (s : ProcState) : ProcRuns σ fuel t s []
+  | cons {s s' : ProcState} {res : Res} {b : Bool} {rest : List (Res × ProcState)}
+      (h : (processRec σ fuel t none).run.run s = (.ok (res, b), s')) (hr : ProcRuns σ fuel t s' rest) :
+      ProcRuns σ fuel t s ((res, s') :: rest)
+
+/-- The processing invariant of the INPUT tree survives a `process` call (relative to the extended registry). -/
+theorem TreeInv.after {σ : Leaves} {reg reg' : Nat → Option (List Row)} {t : Rel} {s s' : ProcState} {matAs : Option String}
+    {res : Res} {b : Bool} (T : TreeInv σ reg sq0 t s) (he : RegExt reg reg' s.nextTemp)
+    (P : ProcMultiOK σ reg' sq0 t s matAs res b s') : TreeInv σ reg' sq0 t s' :=
+  T.same he P.temp P.inv.store P.inv.sq P.inv.freshSt
+
+/-- **Any number of repeated `process` calls on the same tree**: every one of them returns a tree with the engine and
+columns of the input that executes, in the state it left, to exactly the rows of the direct evaluation. -/
+theorem process_repeatedly (σ : Leaves) (h0 : sq0.payload 0 = none) (t : Rel) (fuel : Nat) (hm : t.MultiIter)
+    (hsql : t.SqlSrcOK σ sq0) (hf : t.size ≤ fuel) :
+    (runs : List (Res × ProcState)) → (s : ProcState) → (reg : Nat → Option (List Row)) → TreeInv σ reg sq0 t s →
+    ProcRuns σ fuel t s runs →
+    ∀ x, x ∈ runs → (x.1.get t).engine = t.engine ∧ (∀ u, u ∈ (x.1.get t).columns ↔ u ∈ t.columns) ∧
+      ∃ it s'', exec σ (x.1.get t).engine (x.1.get t) x.2.st = .ok (it, s'') ∧ it.rows σ = .ok (sem σ t)
+  | [], _, _, _, _, x, hx => by cases hx
+  | (res, s') :: rest, s, reg, T, hruns, x, hx => by
+    cases hruns with
+    | cons h hr =>
+      rename_i b
+      obtain ⟨reg', hext, P⟩ := process_multi_iter σ h0 t fuel none s reg hm hsql T hf res b s' h
+      rcases List.mem_cons.mp hx with hx | hx
+      · subst hx
+        refine ⟨P.engine, P.cols, ?_⟩
+        have := exec_correctM σ reg' (res.get t) (res.get t).engine s'.st P.exec P.inv.wf P.inv.truthful
+          P.inv.kd P.inv.regOK P.inv.store rfl
+        unfold ExecGoodM at this
+        obtain ⟨it, s'', a, bb, _, _, _, _⟩ := this
+        exact ⟨it, s'', a, by rw [bb, P.sem_eq]⟩
+      · exact process_repeatedly σ h0 t fuel hm hsql hf rest s' reg' (T.after hext P) hr x hx
 
 end DafRel
